@@ -79,7 +79,7 @@ def make_mutant_items(ctx, rng, n, owners, threads=False):
     items = []
     for k in range(n):
         s, name, owner, desc = M.mutate(rng, only=owners, threads=threads)
-        r = {"spelling": "id" if name in ("identical_operands",) else "mixed", "shuffle": k % 2 == 1, "descriptive": False,
+        r = {"spelling": "id" if name in M.FORCE_ID_SPELLING else "mixed", "shuffle": k % 2 == 1, "descriptive": False,
              "seed": rng.randrange(1 << 30)}
         doc = S.render(s, random.Random(r["seed"]), r["spelling"], r["shuffle"], r["descriptive"])
         items.append(Item(s, doc, "mutant", mutator=name, owner=owner, desc=desc, render=r, group=scen_hash(s)))
